@@ -27,7 +27,8 @@ Judge(o, c, bp) ==
       unrep == n > 0 /\ ~DenialReported(pos[n], bp, Deny, errs, c.explain, c.pathless)
       sent == ~PrefetchRule(c.reqs, Deny, c.mode)
       undet == \E i \in 1..n : AzIsObj(c.cum[i]) /\ AzUndetObj(o.shape, c.cum[i]) > 0
-  IN (IF leak THEN {"NoDeniedValue"} ELSE {})
+  IN IF c.failmode THEN (IF leak THEN {"FailClosed"} ELSE {}) ELSE
+     (IF leak THEN {"NoDeniedValue"} ELSE {})
      \cup (IF incons THEN {"NullPropagates"} ELSE {})
      \cup (IF inexact THEN {"NullPropagatesExact"} ELSE {})
      \cup (IF unrep THEN {"DenialReported"} ELSE {})
@@ -54,6 +55,7 @@ Inv_NoDeniedValue == "NoDeniedValue" \notin bad
 Inv_DenialReported == "DenialReported" \notin bad
 Inv_NullPropagates == "NullPropagates" \notin bad /\ "NullPropagatesExact" \notin bad
 Inv_PrefetchRule == "PrefetchRule" \notin bad
+Inv_FailClosed == "FailClosed" \notin bad
 Inv_Determined == "Undetermined" \notin bad
 
 Report == IF bad # {} THEN PrintT(ToJson([id |-> TraceLog[l - 1].id, bad |-> bad])) ELSE TRUE
